@@ -72,7 +72,7 @@ func c04Sample(kind string, xs []float64) (stats.TTestSample, *big.Float, *big.F
 		s := &stats.StreamStats{}
 		cut1, cut2 := len(xs)/3, (2*len(xs)+1)/3
 		var a, b, e stats.StreamStats
-		switch variant := (len(xs) + int(math.Float64bits(xs[0])>>7)) % 4; {
+		switch variant := (len(xs) + int(math.Float64bits(xs[0])>>7)) % 5; {
 		case variant == 1 && len(xs) >= 4:
 			// observe, extend, observe: the prefix is read (every statistic,
 			// and a whole t-test) before the rest is merged in; what is
@@ -85,14 +85,50 @@ func c04Sample(kind string, xs []float64) (stats.TTestSample, *big.Float, *big.F
 				_, _, _, _ = w.Mean(), w.Variance(), w.StdDev(), w.RMS()
 				_, _ = stats.OneSampleTTest(w, xs[0], stats.LocationDiffers)
 			})
-			var rest stats.StreamStats
-			for _, x := range xs[cut2:] {
-				rest.Add(x)
+			switch (len(xs) + int(math.Float64bits(xs[len(xs)-1])>>9)) % 3 {
+			case 0: // extend by merging
+				var rest stats.StreamStats
+				for _, x := range xs[cut2:] {
+					rest.Add(x)
+				}
+				mon.Call(func() { _ = rest.Variance() })
+				w.Combine(&rest)
+			case 1: // extend by plain Adds after the reads
+				for _, x := range xs[cut2:] {
+					w.Add(x)
+				}
+			default: // both, with another read in between
+				mid := cut2 + (len(xs)-cut2)/2
+				for _, x := range xs[cut2:mid] {
+					w.Add(x)
+				}
+				mon.Call(func() { _, _ = w.Variance(), w.Mean() })
+				var rest stats.StreamStats
+				for _, x := range xs[mid:] {
+					rest.Add(x)
+				}
+				w.Combine(&rest)
 			}
-			mon.Call(func() { _ = rest.Variance() })
-			w.Combine(&rest)
 			c04StreamVariant.Add(1)
 			return w, m.Mean, vr, kappa
+		case variant == 3 && len(xs) >= 2:
+			// a total built from the zero value: the first Combine has an
+			// empty receiver (sometimes after merging an empty shard first)
+			var total, e0, s1, s2 stats.StreamStats
+			for i, x := range xs {
+				if i < cut2 {
+					s1.Add(x)
+				} else {
+					s2.Add(x)
+				}
+			}
+			if len(xs)%2 == 0 {
+				total.Combine(&e0)
+			}
+			total.Combine(&s1)
+			total.Combine(&s2)
+			c04StreamVariant.Add(1 << 40)
+			return &total, m.Mean, vr, kappa
 		case variant == 2 && len(xs) >= 3:
 			// the sample under test is a stream that has served as the
 			// ARGUMENT of Combine (into smaller and larger receivers): an
@@ -517,7 +553,7 @@ func hasSpread(xs []float64) bool {
 func c04Run(r *mon.Run) {
 	r.Rule("random samples of 2..40 finite values, |x|<=1e6, relative spread >=1e-6, equal/unequal sizes and variances, ties, one constant sample; mu0 from within 1e-9 standard errors of the mean to 30+ standard errors away; 3 alternatives; Sample, *StreamStats and a plain struct as TTestSample; related calls: swapped samples, power-of-two scaling, shifts; error inputs; MeanCI for c in [0,1] incl. 0,1,1e-12,1-1e-12. Non-trivial = hits a class; distinct by hash of inputs.")
 	r.Assume("means/variances/T/DoF recomputed at 384 bits from the exact float64 inputs; Student-t reference: closed form (integer DoF) / gonum mathext (Welch)", "tolerances follow the conditioning |mean|/sd of the inputs (DESIGN section 4b)")
-	r.Gate("both-constant-and-equal", "paired-exact-differences", "paired-correlated-small-differences", "scaled-down-by-2^-20..-200", "equal-variances-unequal-sizes", "welch-unequal-n-and-variance", "tiny-T", "huge-T", "kind-sample", "kind-stream", "kind-struct",
+	r.Gate("meanci-data-scaled-down-by-2^-20..-200", "meanci-data-scaled-below-1e-12", "both-constant-and-equal", "paired-exact-differences", "paired-correlated-small-differences", "scaled-down-by-2^-20..-200", "equal-variances-unequal-sizes", "welch-unequal-n-and-variance", "tiny-T", "huge-T", "kind-sample", "kind-stream", "kind-struct",
 		"error-"+stats.ErrSampleSize.Error(), "error-"+stats.ErrZeroVariance.Error(), "error-"+stats.ErrMismatchedSamples.Error(),
 		"meanci-empty", "meanci-c<=0", "meanci-infinite", "meanci-regular", "one-sample-zero-variance", "meanci-tiny-c", "meanci-c-near-1")
 	tests := []string{"two", "welch", "paired", "one"}
@@ -708,6 +744,22 @@ func c04Run(r *mon.Run) {
 			n = 1
 		}
 		c.X1 = c04Data(rng, n)
+		// a share of the data sets is rescaled (the content of the interval
+		// is scale-free): by a power of two, exactly, or by any factor
+		switch rng.Intn(6) {
+		case 0:
+			f := math.Ldexp(1, -rng.Range(20, 200))
+			for k := range c.X1 {
+				c.X1[k] *= f
+			}
+			w.Hit("meanci-data-scaled-down-by-2^-20..-200")
+		case 1:
+			f := math.Pow(10, rng.Uniform(-60, 60))
+			for k := range c.X1 {
+				c.X1[k] *= f
+			}
+			w.HitIf(f < 1e-12, "meanci-data-scaled-below-1e-12")
+		}
 		var conf float64
 		switch rng.Intn(10) {
 		case 0:
@@ -737,8 +789,9 @@ func c04Run(r *mon.Run) {
 	})
 	v := c04StreamVariant.Load()
 	r.Extra("streams_observed_then_extended_then_tested", v&(1<<20-1))
-	r.Extra("streams_tested_after_serving_as_Combine_operand", v>>20)
-	if v&(1<<20-1) == 0 || v>>20 == 0 {
+	r.Extra("streams_tested_after_serving_as_Combine_operand", (v>>20)&(1<<20-1))
+	r.Extra("streams_built_by_Combine_into_the_zero_value", v>>40)
+	if v&(1<<20-1) == 0 || (v>>20)&(1<<20-1) == 0 || v>>40 == 0 {
 		r.Inconclusive("a StreamStats history variant was never built")
 	}
 }
